@@ -112,24 +112,26 @@ def correspondence(ctx):
             ctx.traces += len(pts)
 
 
-def law(ctx, kind, name, z, ups, required=lambda t: True, inforce=None, extra=None, defer=None):
+def law(ctx, kind, name, z, ups, required=lambda t: True, inforce=None, extra=None, defer=None, us=0):
     """the round-trip law itself, on the implementation"""
     from dateutil import tz
     seen = {}
     for t in ups:
         case = {"kind": kind, "zone": name, "t": t}
+        if us:
+            case["us"] = us                      # the instant is t + us microseconds (review seed C04F)
         if extra:
             case.update(extra)
         req = required(t)
         try:
-            u = (Z.EPOCH + Z.TD(seconds=t)).replace(tzinfo=tz.UTC)
+            u = (Z.EPOCH + Z.TD(seconds=t, microseconds=us)).replace(tzinfo=tz.UTC)
             w = u.astimezone(z)
             off = w.utcoffset()
             wall = Z.ts(w)
             back = w.astimezone(tz.UTC)
             prob = None
-            if off != Z.TD(seconds=wall - t):
-                prob = "utcoffset %s != wall - utc = %d" % (off, wall - t)
+            if off != (w.replace(tzinfo=None) - u.replace(tzinfo=None)):
+                prob = "utcoffset %s != wall - utc = %s" % (off, w.replace(tzinfo=None) - u.replace(tzinfo=None))
             elif back.replace(tzinfo=None) != u.replace(tzinfo=None):
                 prob = "converting back gives %s" % back
             elif (wall, w.fold) in seen and seen[(wall, w.fold)] != t:
@@ -145,7 +147,7 @@ def law(ctx, kind, name, z, ups, required=lambda t: True, inforce=None, extra=No
             ctx.case((name, t), nontrivial=False)
             ctx.count("not_required_ok" if prob is None else "not_required_fails")
             continue
-        ctx.case((name, t)); ctx.count("law:" + kind)
+        ctx.case((name, t, us)); ctx.count("law:" + kind + (":subsecond" if us else ""))
         if prob is not None:
             if defer is not None:
                 defer.append(("%s: UTC %d -> local -> UTC: %s" % (name, t, prob), case, prob))
@@ -179,6 +181,12 @@ def oracle(ctx):
             return ty[0], ty[2]
         law(ctx, "tzfile", name, z, ups, req, inforce if tl.utc else None,
             extra={"stream": Z.hexs(data)} if name.startswith(("syn", "rnd")) else None)
+        # sub-second instants in the last second before and the first second after every transition
+        # (before and after 1970): `_datetime_to_timestamp` must not round them across the transition
+        sub = sorted({T + d for T in tl.utc for d in (-1, 0)})
+        for usec in (1, 500000, 999999):
+            law(ctx, "tzfile", name, z, sub, req, inforce if tl.utc else None,
+                extra={"stream": Z.hexs(data)} if name.startswith(("syn", "rnd")) else None, us=usec)
     ctx.hist["real_zones_violating_WF"] = nonwf_real
     pts = [0, 1, -1, Z.T0, Z.T0 + 1799, 2 ** 31 - 1, -(2 ** 31), 86400 * 365 * 40]
     law(ctx, "tzutc", "tzutc", tz.tzutc(), pts, inforce=lambda t: (0, "UTC"))
@@ -202,6 +210,8 @@ def oracle(ctx):
                 case.update(Z.range_case_fields(z, case["t"]))
                 case["model_same"] = (g == Z.impl_fromutc_line(z, case["t"], with_dst_name=False))
                 Z.report(ctx, KNOWN, what, case, prob)
+        law(ctx, "range", name, z, ups[::2], extra={"near_year_edge": False, "hasdst": None}, us=500000) \
+            if not Z.near_year_edge(z, Z.YEARS) and int(z._dst_offset.total_seconds()) >= int(z._std_offset.total_seconds()) else None
     # tzrange built from a tzstr zone's abbreviations, offsets and deltas: equal (__eq__, six fields)
     # and identical answers (model: C08.tzrange_eq_tzstr)
     for sname in Z.TZSTRS:
@@ -223,6 +233,24 @@ def oracle(ctx):
     ref = tz.tzstr("EST5EDT,M4.1.0,M10.5.0")
     ups, _ = Z.range_probes(ref, [1990, 2000, 2003, 2020])
     law(ctx, "tzical", "tzical:US-Eastern", ical, ups)
+    # tzical zones with finite rules (UNTIL, COUNT), RDATE lists and several eras; non-monotone query
+    # histories on ONE zone object against a fresh object per query (history independence; seed C04G)
+    for vname, text in Z.FINITE_VTZS:
+        shared = Z.load_vtz(text)
+        onsets = Z.vtz_onsets_utc(Z.load_vtz(text))
+        pts = [t + d for t in onsets for d in (-1, 0, 1, -3600, 3600)]
+        rng = ctx.subrng("c04-vtz-" + vname)
+        order = list(pts); rng.shuffle(order)
+        history = [Z.ts(datetime.datetime(2020, 6, 1, 12))] + order + sorted(pts, reverse=True)[:40] + sorted(pts)[:40]
+        for t in history:
+            got = Z.impl_fromutc_line(shared, t)
+            ref = Z.impl_fromutc_line(Z.load_vtz(text), t)
+            ctx.case(("tzical-history", vname, t)); ctx.count("law:tzical-history")
+            if got != ref:
+                Z.report(ctx, KNOWN, "tzical:%s UTC %d: the zone object answers %s after earlier queries, a fresh object answers %s"
+                         % (vname, t, got, ref), {"kind": "tzical-history", "zone": vname, "t": t}, {"shared": got, "fresh": ref})
+        law(ctx, "tzical", "tzical:" + vname, shared, sorted(set(pts)))
+        law(ctx, "tzical", "tzical:" + vname + "(fresh)", Z.load_vtz(text), sorted(set(pts)))
     for s in Z.LOCAL_TZS + ["Europe/London", "Australia/Lord_Howe"]:
         if os.path.isfile(os.path.join(Z.ROOT, s)):
             data = open(os.path.join(Z.ROOT, s), "rb").read()
@@ -232,6 +260,7 @@ def oracle(ctx):
             ups, _ = Z.range_probes(tz.tzstr(s), Z.YEARS[1:])
         with local_tz(s) as z:
             law(ctx, "tzlocal", "tzlocal:" + s, z, ups)
+            law(ctx, "tzlocal", "tzlocal:" + s, z, ups[::3], us=999999)
     assert os.environ.get("TZ") == "UTC"
     ctx.sample({"zone": "Europe/Dublin", "t": 1445736600,
                 "impl": Z.impl_fromutc_line(tz.gettz("Europe/Dublin"), 1445736600)})
@@ -254,8 +283,8 @@ def replay(ctx, payload):
     else:
         print("replay supports tzfile / tzstr / tzoffset cases"); return False
     t = c["t"]
-    u = (Z.EPOCH + Z.TD(seconds=t)).replace(tzinfo=tz.UTC)
+    u = (Z.EPOCH + Z.TD(seconds=t, microseconds=c.get("us", 0))).replace(tzinfo=tz.UTC)
     w = u.astimezone(z)
-    ok = w.utcoffset() == Z.TD(seconds=Z.ts(w) - t) and w.astimezone(tz.UTC) == u
+    ok = w.utcoffset() == (w.replace(tzinfo=None) - u.replace(tzinfo=None)) and w.astimezone(tz.UTC) == u
     print("zone=%s t=%d -> %s fold=%d utcoffset=%s back=%s" % (c["zone"], t, w.replace(tzinfo=None), w.fold, w.utcoffset(), w.astimezone(tz.UTC)))
     return ok
